@@ -134,6 +134,48 @@ class Program:
             self._cfg[name] = CFG(self, self.funcs[name])
         return self._cfg[name]
 
+    def accept_summary(self, name, cls):
+        """facts (over the function's parameter names only) common to all returns of the class:
+        cls 'VALID' = `return VALID`; cls 'true' = `return <non-zero constant>` of a boolean helper"""
+        key = (name, cls)
+        if not hasattr(self, "_sum"):
+            self._sum = {}
+        if key in self._sum:
+            return self._sum[key]
+        self._sum[key] = []
+        try:
+            g = self.cfg(name)
+        except Unsupported:
+            return []
+        params = set(p["name"] for p in self.params(name))
+        common = None
+        for n in g.nodes:
+            if n.kind != "ret" or n.expr is None:
+                continue
+            v = const_eval(n.expr, self.enums)
+            txt = g.r(n.expr)
+            if cls == "VALID":
+                if txt != "VALID":
+                    if v is None:
+                        self._sum[key] = []   # computed result: no summary
+                        return []
+                    continue
+            else:
+                if v is None:
+                    self._sum[key] = []
+                    return []
+                if v == 0:
+                    continue
+            fs = set()
+            for f, br in g.facts_at(n):
+                ids = set(re.findall(r"(?<![\w>.])([A-Za-z_]\w*)(?!\w*\()", re.sub(r"[A-Za-z_]\w*\(", "(", f)))
+                ids -= set(self.enums) | {"sizeof"}
+                if ids <= params:
+                    fs.add(f)
+            common = fs if common is None else (common & fs)
+        self._sum[key] = sorted(common or [])
+        return self._sum[key]
+
     def params(self, name):
         d = self.funcs.get(name) or self.protos.get(name)
         return [c for c in d.get("inner", []) if c.get("kind") == "ParmVarDecl"]
@@ -248,6 +290,23 @@ class R:
         if k == "InitListExpr":
             return "{…}"
         return "<%s>" % k
+
+
+def split_args(s):
+    out, depth, cur = [], 0, ""
+    for ch in s:
+        if ch in "([":
+            depth += 1
+        elif ch in ")]":
+            depth -= 1
+        if ch == "," and depth == 0:
+            out.append(cur.strip())
+            cur = ""
+        else:
+            cur += ch
+    if cur.strip():
+        out.append(cur.strip())
+    return out
 
 
 def callee_name(e):
@@ -665,7 +724,34 @@ class CFG:
         return None
 
     def resolved_facts(self, n, depth=2):
-        return sorted(set(f for f, _ in self.facts_at(n)))
+        base = set(f for f, _ in self.facts_at(n))
+        return sorted(base | self.expand_summaries(base))
+
+    # ---- wrapper summaries: `helper(args) == VALID` (or a true boolean helper) implies what holds at every
+    # accepting return of the helper, with parameters replaced by the arguments
+    def expand_summaries(self, facts, depth=0):
+        out = set()
+        if depth > 1:
+            return out
+        for f in facts:
+            m = re.match(r"^([A-Za-z_]\w*)\((.*)\) (== VALID|!= 0)$", f)
+            if not m:
+                continue
+            name, argstr, tail = m.group(1), m.group(2), m.group(3)
+            if name not in self.prog.funcs or name == self.name:
+                continue
+            args = split_args(argstr)
+            params = [p["name"] for p in self.prog.params(name)]
+            if len(args) != len(params):
+                continue
+            for sf in self.prog.accept_summary(name, "VALID" if tail == "== VALID" else "true"):
+                x = sf
+                for pn, av in zip(params, args):
+                    x = re.sub(r"(?<![\w>.])%s(?!\w)" % re.escape(pn), lambda _m, av=av: av, x)
+                # `&*x` / `*&x` produced by substitution
+                x = x.replace("&(*", "(").replace("(*&", "(") if False else x
+                out.add(x)
+        return out
 
     def loop_init(self, head, var):
         """value expression var has on loop entry: its last definition outside the loop dominating the head"""
